@@ -22,8 +22,8 @@ Qed.
 (* after any sequential history, any number of threads compiling and evaluating under ANY schedule
    (interleaving at the granularity of: ask the cache / take a name / exec the definition / store / get()):
    whatever state each thread is in, it works on its own filter, and a thread that is done got its own code.
-   PARTIAL: no eviction while the threads run (the cache has room for them; CPython would finalise an evicted
-   wrapper only when no thread holds it); real preemption is per bytecode, not per step. *)
+   (No eviction in this first statement; C13_concurrent_with_eviction below lifts that.)  Real preemption is per
+   bytecode, not per step: PARTIAL in that respect only. *)
 Theorem C13_concurrent : forall cap hist ks sched s rs,
   run_calls cap cinit hist = (s, rs) ->
   let final := prun (mkP (ctr s) (globals s) (cache s) (map TStart ks)) sched in
@@ -34,6 +34,23 @@ Proof.
   pose proof (concurrent_after_history cap hist ks sched s rs H) as HE. fold final in HE.
   destruct (Forall2_nth _ _ _ _ _ HE Ht) as [a [Ea Hag]]. rewrite Hk in Ea. inversion Ea; subst a. exact Hag.
 Qed.
+
+(* the same WITH eviction while the threads run (any capacity, capacity 0 and 1 included): storing a wrapper may
+   drop the least recently used one, which is finalised - its module global deleted - as soon as no thread
+   holds it; a thread that finishes releases its wrapper.  Still every thread ends with its own filter's code. *)
+Theorem C13_concurrent_with_eviction : forall cap hist ks sched s rs,
+  run_calls cap cinit hist = (s, rs) ->
+  let final := prun2 cap (mkP (ctr s) (globals s) (cache s) (map TStart ks)) sched in
+  forall i k t, nth_error ks i = Some k -> nth_error (threads final) i = Some t ->
+  match t with TDone r => r = Some k | _ => key_of t = Some k end.
+Proof.
+  intros cap hist ks sched s rs H final i k t Hk Ht.
+  pose proof (concurrent_with_eviction cap hist ks sched s rs H) as HE. fold final in HE.
+  destruct (Forall2_nth _ _ _ _ _ HE Ht) as [a [Ea Hag]]. rewrite Hk in Ea. inversion Ea; subst a. exact Hag.
+Qed.
+Example C13_two_threads_capacity_one :
+  threads (prun2 1 (mkP 0 [] [] [TStart 7%N; TStart 9%N; TStart 7%N]) [0; 1; 0; 1; 1; 0; 0; 1; 1; 0; 2; 2; 2; 2; 2; 2]) = [TDone (Some 7%N); TDone (Some 9%N); TDone (Some 7%N)].
+Proof. vm_compute. reflexivity. Qed.
 
 (* non-vacuity: two threads, fully interleaved, both finish with their own code; a capacity-2 history with evictions *)
 Example C13_two_threads :
@@ -47,3 +64,4 @@ Proof. vm_compute. split; reflexivity. Qed.
 Print Assumptions C13_sequential.
 Print Assumptions C13_cached_entries_stay_valid.
 Print Assumptions C13_concurrent.
+Print Assumptions C13_concurrent_with_eviction.
